@@ -8,8 +8,6 @@ package harness
 import (
 	"sort"
 	"testing"
-
-	vmcommon "github.com/ElrondNetwork/elrond-vm-common"
 )
 
 var c17Kinds = []string{"trie-write", "load-account", "save-account", "marshal", "unmarshal", "is-payable", "add-balance", "change-owner", "claim-rewards", "load-system-account"}
@@ -43,7 +41,7 @@ func c17Setup(seen map[string]bool) func(e *Engine, st *Stats) {
 			var out []Clause
 			for _, kind := range c17Kinds {
 				n := r0.Deps[kind]
-				if kind == "load-system-account" && c.Fn != vmcommon.BuiltInFunctionESDTPause && c.Fn != vmcommon.BuiltInFunctionESDTUnPause {
+				if kind == "load-system-account" && c.Fn != refBuiltInFunctionESDTPause && c.Fn != refBuiltInFunctionESDTUnPause {
 					continue // the pause lookup is fail-soft by interface design (excluded by the statement)
 				}
 				for k := 1; k <= n; k++ {
